@@ -95,11 +95,11 @@ ConvMism(o) ==
              \* ether_payload(): payload of the last link level layer, if it is announced by an ether type
              \* (behind a Linux SLL header the protocol type decides whether there is an ether type at all: not constrained here)
              (IF LL # <<>> /\ LL[Len(LL)].k # "sll" THEN LET p == LL[Len(LL)].p IN
-                                IF p.k = "ether" THEN (IF ~SameRange(c.epay, p) THEN {"conv.ether_payload"} ELSE {})
+                                IF p.k = "ether" THEN (IF ~SameRange(c.epay, p) \/ (p.inc \in {0, 1} /\ c.epay.inc # p.inc) THEN {"conv.ether_payload"} ELSE {})
                                 ELSE (IF c.epay.k # "none" THEN {"conv.ether_payload"} ELSE {})
               ELSE {})
              \* ip_payload(): payload of the IP layer
-             \cup (IF IL # <<>> THEN (IF ~SameRange(c.ipay, IL[1].p) \/ c.ipay.frag # IL[1].p.frag THEN {"conv.ip_payload"} ELSE {})
+             \cup (IF IL # <<>> THEN (IF ~SameRange(c.ipay, IL[1].p) \/ c.ipay.frag # IL[1].p.frag \/ (IL[1].p.inc \in {0, 1} /\ c.ipay.inc # IL[1].p.inc) THEN {"conv.ip_payload"} ELSE {})
                    ELSE (IF c.ipay.k # "none" THEN {"conv.ip_payload"} ELSE {}))
              \* payload_ether_type(): ether type behind the last link level header when nothing above it was decoded
              \cup (IF c.pet = -2 THEN {}
@@ -115,6 +115,8 @@ RunMism(r, o, fam) ==
   (IF o.v = "panic" THEN {"panic"} ELSE IF r.v # o.v THEN {"verdict"} ELSE {})
   \cup (IF o.oob # 0 THEN {"oob"} ELSE {})
   \cup (IF r.v = "ok" /\ o.v = "ok" THEN LayersMism(r, o, fam) \cup PayMism(r.pay, o.pay, "pay") \cup ConvMism(o) ELSE {})
+  \* to_header() / to_packet() of a layer's slice holds the values its accessors report
+  \cup (IF o.v = "ok" THEN {"c04.to_header." \o o.tohdr[i] : i \in 1..Len(o.tohdr)} ELSE {})
   \cup (IF o.v # "panic" /\ r.v = o.v THEN ErrMism(r, o) ELSE {})
 
 \* ---------------------------------------------------------------------------
@@ -164,11 +166,12 @@ LaxAgree(os, ol, fam) ==        \* os: strict observation, ol: lax observation o
 TypedAgree(od, ot) ==           \* od: dispatching (entry ip), ot: typed (entry ipv4 / ipv6) with matching nibble
   IF od.v = "panic" \/ ot.v = "panic" THEN {}
   ELSE IF od.v # ot.v THEN {"c06.typed.verdict"}
-  ELSE IF od.v # "ok" THEN (IF od.err.kind = "len" /\ ot.err.kind = "len" /\ (od.err.off # ot.err.off \/ od.err.len # ot.err.len)
+  ELSE IF od.v # "ok" THEN (IF od.err.kind = "len" /\ ot.err.kind = "len" /\ (od.err.off # ot.err.off \/ od.err.len # ot.err.len \/ od.err.src # ot.err.src)
                             THEN {"c06.typed.err"} ELSE {})
   ELSE (IF od.layers # ot.layers THEN {"c06.typed.layers"} ELSE {})
        \cup (IF od.pay # ot.pay THEN {"c06.typed.pay"} ELSE {})
-       \cup (IF (od.err.kind = "none") # (ot.err.kind = "none") \/ od.err.stop # ot.err.stop THEN {"c06.typed.stop"} ELSE {})
+       \cup (IF (od.err.kind = "none") # (ot.err.kind = "none") \/ od.err.stop # ot.err.stop
+                \/ (od.err.kind = "len" /\ ot.err.kind = "len" /\ (od.err.src # ot.err.src \/ od.err.off # ot.err.off \/ od.err.len # ot.err.len)) THEN {"c06.typed.stop"} ELSE {})
 
 \* C06: a door further out vs the door behind its first header(s): offsets shift by d
 ShiftPay(p, d) == IF p.k = "none" \/ p.off < 0 THEN p ELSE [p EXCEPT !.off = @ + d]
